@@ -16,9 +16,14 @@ type PoolCfg struct {
 	TSlash    int  // out of 8: probability that a pattern ends with '/'
 	Fanout    bool // add > 50 static siblings under one node
 	Deep      bool // add a chain of nested prefixes deeper than 25 tree levels
+	Ladder    bool // add static, {param} and *{catch-all} alternatives at three consecutive levels (deep backtracking)
 	HostHeavy bool // two fresh patterns in three carry a hostname, and mutations keep the host more often
 	Odd       bool // static segments also use bytes that sort before '*', between '*' and '{', and after '{'; wildcard names may carry '.', '-' or extend one another
 }
+
+// LadderPatterns, deepest first: at each of three levels a static, a parameter and a catch-all alternative. A request
+// such as /a/b/ca must fall back level by level; how deep the tree "thinks" it is depends on the registration order.
+var LadderPatterns = []string{"/a/b/c", "/a/b/{p2}", "/a/b/*{p2}", "/a/{p1}", "/a/*{p1}", "/{p0}", "/*{p0}"}
 
 var statics = []string{"a", "b", "ab", "ba", "c"}
 
@@ -197,6 +202,14 @@ func GenPool(s sim.Source, cfg PoolCfg) []*model.Pattern {
 		}
 		// siblings on the far sides of the wildcard markers, and wildcard children of the wide node with routes below them
 		for _, raw := range []string{"/f/!x", "/f/$x", "/f/|x", "/f/~x", "/f/{p}", "/f/*{q}", "/f/{p}/t", "/f/*{q}/t"} {
+			if p, err := model.Parse(raw); err == nil && !seen[raw] {
+				seen[raw] = true
+				out = append(out, p)
+			}
+		}
+	}
+	if cfg.Ladder && len(out) > 0 {
+		for _, raw := range LadderPatterns {
 			if p, err := model.Parse(raw); err == nil && !seen[raw] {
 				seen[raw] = true
 				out = append(out, p)
